@@ -101,6 +101,19 @@ Definition needs_restore (r : vres) : bool :=
 
 Definition is_err (r : vres) : bool := match r with VErr => true | _ => false end.
 
+(* verifyFile's last step (non-fail-fast only): a reused file that needs restoring and has several hard links is
+   reported as (nil state, nil error) = XNil, because createFile will replace it by a new empty file.
+   [hl] = the target has more than one hard link. *)
+Inductive xres := XNil | XRes (r : vres).
+
+Definition verify_file_x (H : bytes -> id) (size_of : id -> option nat)
+           (hl fast trust mtime_eq : bool) (o : fobj) (n : node) : xres :=
+  let r := verify_file H size_of fast trust mtime_eq o n in
+  if negb (is_err r) && negb fast && needs_restore r && hl then XNil else XRes r.
+
+Definition x_needs_restore (x : xres) : bool := match x with XNil => true | XRes r => needs_restore r end.
+Definition x_is_err (x : xres) : bool := match x with XNil => false | XRes r => is_err r end.
+
 (* ---- VerifyFiles ---- *)
 (* one node of the snapshot tree in traversal order, with what the harness finds at its target path *)
 Record entry := mkEntry { e_loc : bytes; e_isfile : bool; e_node : node; e_obj : fobj }.
@@ -201,8 +214,8 @@ Fixpoint tab_hash (ht : list (bytes * id)) (b : bytes) : id :=
 
 (* ---- cases ---- *)
 Inductive case :=
-| CFile (bt : blobtab) (ht : list (bytes * id)) (fast trust mteq : bool) (o : fobj) (n : node)
-        (obs : vres) (obs_nr : bool)             (* verifyFile result; the real NeedsRestore() of that state *)
+| CFile (bt : blobtab) (ht : list (bytes * id)) (hl fast trust mteq : bool) (o : fobj) (n : node)
+        (obs : xres) (obs_nr : bool)             (* verifyFile result; the real NeedsRestore() of that state *)
 | CAll (bt : blobtab) (ht : list (bytes * id)) (fl : filelist) (es : list entry)
        (obs_ok : bool) (obs_cnt : N)            (* abort mode: err == nil, count *)
        (obs_rep : list bytes) (obs_cnt2 : N)    (* collect mode: reported locations in traversal order, count *)
@@ -218,12 +231,19 @@ Definition vres_eqb (a b : vres) : bool :=
   | _, _ => false
   end.
 
+Definition xres_eqb (a b : xres) : bool :=
+  match a, b with
+  | XNil, XNil => true
+  | XRes x, XRes y => vres_eqb x y
+  | _, _ => false
+  end.
+
 (* oracle clause codes (0 = holds) *)
 Definition oracle_code (c : case) : nat :=
   match c with
-  | CFile bt _ fast trust _ o n obs nr =>
+  | CFile bt _ _ fast trust _ o n obs nr =>
       if wf_nodeb bt n && negb trust then
-        if fast then (if Bool.eqb (negb (is_err obs)) (intact bt o n) then 0 else 2)
+        if fast then (if Bool.eqb (negb (x_is_err obs)) (intact bt o n) then 0 else 2)
         else (if Bool.eqb (negb nr) (intact bt o n) then 0 else 3)
       else 0
   | CAll bt _ fl es ok cnt rep _ =>
@@ -254,9 +274,9 @@ Definition pair_eqb (a b : bool * N) : bool := Bool.eqb (fst a) (fst b) && N.eqb
 
 Definition model_agrees (c : case) : bool :=
   match c with
-  | CFile bt ht fast trust mteq o n obs nr =>
-      let m := verify_file (tab_hash ht) (lookup_size bt) fast trust mteq o n in
-      vres_eqb obs m && Bool.eqb nr (needs_restore m)
+  | CFile bt ht hl fast trust mteq o n obs nr =>
+      let m := verify_file_x (tab_hash ht) (lookup_size bt) hl fast trust mteq o n in
+      xres_eqb obs m && Bool.eqb nr (x_needs_restore m)
   | CAll bt ht fl es ok cnt rep cnt2 =>
       let a := verify_files_abort (tab_hash ht) (lookup_size bt) fl es in
       let k := verify_files_collect (tab_hash ht) (lookup_size bt) fl es in
